@@ -395,3 +395,160 @@ func (f *Func) Defines(n ast.Node, obj types.Object) bool {
 	})
 	return found
 }
+
+// ---- name-independent lookups (rules must survive renaming of locals and parameters) -------------
+
+// isContextType reports whether t is context.Context.
+func isContextType(t types.Type) bool {
+	n := namedOf(t)
+	return n != nil && n.Obj().Pkg() != nil && n.Obj().Pkg().Path() == "context" && n.Obj().Name() == "Context"
+}
+
+// isNamedType reports whether t (through pointers) is the named type pkgPath.name.
+func isNamedType(t types.Type, pkgPath, name string) bool {
+	n := namedOf(t)
+	return n != nil && n.Obj().Pkg() != nil && n.Obj().Pkg().Path() == pkgPath && n.Obj().Name() == name
+}
+
+// ParamWhere returns the first parameter (receiver included) whose type satisfies pred.
+func (f *Func) ParamWhere(pred func(types.Type) bool) *types.Var {
+	for _, p := range f.Params() {
+		if pred(p.Type()) {
+			return p
+		}
+	}
+	return nil
+}
+
+// CtxParam returns the context.Context parameter of f (or of an enclosing function).
+func (f *Func) CtxParam() *types.Var {
+	for p := f; p != nil; p = p.Parent {
+		if v := p.ParamWhere(isContextType); v != nil {
+			return v
+		}
+	}
+	return nil
+}
+
+// ParamOfNamed returns the parameter of named type (pointer or not) rel.name, rel being an SDK-relative package path.
+func (f *Func) ParamOfNamed(rel, name string) *types.Var {
+	return f.ParamWhere(func(t types.Type) bool { return isNamedType(t, modPath+"/"+rel, name) })
+}
+
+// NonRecvParams returns the parameters without the receiver.
+func (f *Func) NonRecvParams() []*types.Var {
+	ps := f.Params()
+	if f.Recv() != nil && len(ps) > 0 {
+		return ps[1:]
+	}
+	return ps
+}
+
+// VarFromCallWhere returns the object bound to result #i of the first call in f's own body satisfying pred
+// (`a, b := call(...)`, `a, b = call(...)`, also in if/switch initialisers); nil if none.
+func (f *Func) VarFromCallWhere(pred func(*ast.CallExpr) bool, i int) types.Object {
+	var out types.Object
+	inspectNoLit(f.Body, func(n ast.Node) {
+		if out != nil {
+			return
+		}
+		var lhs []ast.Expr
+		var rhs []ast.Expr
+		switch s := n.(type) {
+		case *ast.AssignStmt:
+			lhs, rhs = s.Lhs, s.Rhs
+		case *ast.ValueSpec:
+			for _, nm := range s.Names {
+				lhs = append(lhs, nm)
+			}
+			rhs = s.Values
+		default:
+			return
+		}
+		if len(rhs) != 1 || i >= len(lhs) {
+			return
+		}
+		if ce, ok := ast.Unparen(rhs[0]).(*ast.CallExpr); ok && pred(ce) {
+			out = f.ObjOf(lhs[i])
+		}
+	})
+	return out
+}
+
+// VarFromCall: result #i of a call to callee.
+func (f *Func) VarFromCall(callee *types.Func, i int) types.Object {
+	return f.VarFromCallWhere(func(ce *ast.CallExpr) bool { return f.IsCallTo(ce, callee) }, i)
+}
+
+// VarFromCallNamed: result #i of a call to a function or method with the given (unqualified) name.
+func (f *Func) VarFromCallNamed(name string, i int) types.Object {
+	return f.VarFromCallWhere(func(ce *ast.CallExpr) bool { fn := f.Callee(ce); return fn != nil && fn.Name() == name }, i)
+}
+
+// NamedResult returns the object of the i-th named result of f (nil if unnamed).
+func (f *Func) NamedResult(i int) types.Object {
+	if f.Type.Results == nil {
+		return nil
+	}
+	k := 0
+	for _, fld := range f.Type.Results.List {
+		for _, nm := range fld.Names {
+			if k == i {
+				return f.Info().Defs[nm]
+			}
+			k++
+		}
+		if len(fld.Names) == 0 {
+			k++
+		}
+	}
+	return nil
+}
+
+// IsObjExpr reports whether e is an identifier (possibly parenthesised) denoting obj.
+func (f *Func) IsObjExpr(e ast.Expr, obj types.Object) bool {
+	return obj != nil && e != nil && f.ObjOf(e) == obj
+}
+
+// SelectorOn decomposes x.Sel where x denotes obj; returns the selected name.
+func (f *Func) SelectorOn(e ast.Expr, obj types.Object) (string, bool) {
+	s, ok := ast.Unparen(e).(*ast.SelectorExpr)
+	if !ok || obj == nil || f.ObjOf(s.X) != obj {
+		return "", false
+	}
+	return s.Sel.Name, true
+}
+
+// FieldPath renders a selector chain with its root replaced by the root's type, e.g. c.opts.Logger →
+// "Client.opts.Logger"; used to describe expressions independently of variable names.
+func (f *Func) FieldPath(e ast.Expr) string {
+	e = ast.Unparen(e)
+	switch x := e.(type) {
+	case *ast.SelectorExpr:
+		if fld, ok := f.ObjOf(x).(*types.Var); ok && fld.IsField() {
+			if inner, ok := ast.Unparen(x.X).(*ast.SelectorExpr); ok {
+				return f.FieldPath(inner) + "." + x.Sel.Name
+			}
+			if n := namedOf(f.TypeOf(x.X)); n != nil {
+				return n.Obj().Name() + "." + x.Sel.Name
+			}
+			return "?." + x.Sel.Name
+		}
+		return exprStr(e)
+	case *ast.CallExpr:
+		if fn := f.Callee(x); fn != nil {
+			if fn.Pkg() != nil && fn.Pkg().Path() == "context" && fn.Name() == "Done" {
+				return "context.Done()"
+			}
+			if r := fn.Type().(*types.Signature).Recv(); r != nil && namedOf(r.Type()) != nil {
+				return namedOf(r.Type()).Obj().Name() + "." + fn.Name() + "()"
+			}
+			return fn.Name() + "()"
+		}
+	case *ast.Ident:
+		if v, ok := f.ObjOf(x).(*types.Var); ok {
+			return "local(" + types.TypeString(v.Type(), func(p *types.Package) string { return p.Name() }) + ")"
+		}
+	}
+	return exprStr(e)
+}
